@@ -319,3 +319,30 @@ func cmdReplay(args []string) int {
 	fmt.Println("not reproduced on the current tree")
 	return 0
 }
+
+// replaySamples runs input vectors of passing paths natively; every run must end without failure.
+func replaySamples(cfg *CheckCfg, pkgDir string, harness []string, vectors [][]InputValue, known map[string]KnownFinding) (int, []string, error) {
+	runs := make([]replayRun, len(vectors))
+	for i := range vectors {
+		runs[i] = replayRun{Harness: harness[i], Tier: currentTier, Inputs: vectors[i], Repeat: 1, Known: knownIDs(known)}
+	}
+	res, text, err := runNative(cfg.Packages, pkgDir, runs, 240*time.Second)
+	if err != nil {
+		return 0, nil, err
+	}
+	agreed := 0
+	var bad []string
+	for i := range runs {
+		got, ok := res[i]
+		if !ok {
+			bad = append(bad, fmt.Sprintf("%s: no native result (%s)", harness[i], tail(strings.TrimSpace(text), 200)))
+			continue
+		}
+		if got == "ok" {
+			agreed++
+		} else {
+			bad = append(bad, fmt.Sprintf("%s: native run of a passing path says %q with inputs %s", harness[i], got, inputsBrief(vectors[i])))
+		}
+	}
+	return agreed, bad, nil
+}
